@@ -28,6 +28,9 @@ NA = {
 CHECKS['C19'] = dict(tech=T + ' (ChaiScript_Basic::load_file/skip_bom) over a contract model of std::ifstream with the file a symbolic byte array',
    text='The real load_file+skip_bom are executed symbolically for every file content of every length 0..L (and for a missing file) against a stream model that follows the standard (short read sets eofbit|failbit, failed streams ignore seekg/read): the returned text is exactly the bytes minus one leading UTF-8 BOM; missing file raises file_not_found_error; stream opened and closed once.',
    note='std::ifstream is a contract model (trusted, written from the standard); content <= 15 bytes; use()/search-path bookkeeping not covered yet')
+CHECKS['C13'] = dict(tech=T + ' of each public Dispatch_Engine entry with a lock-state model behind pthread_rwlock_* and table operations replaced by stubs that assert the lock mode',
+   text='Lock-discipline obligations (the sufficient condition the code relies on): for each covered entry every read of a shared table happens with the engine mutex held (shared or unique), every write with it held unique, the right mutex is used, no lock is taken twice, and every exit - normal or throwing - releases all locks; outcomes of the table operations are symbolic. Interleavings are not explored.',
+   note='single-threaded symbolic execution; does not detect races on payloads reached through pointers read under the lock nor ordering bugs between correctly locked sections; entries covered so far: add_global_const, add_global, add_global_no_throw, set_global, add(Type_Info), get_type')
 ALL = ['C%02d' % i for i in range(1, 21)]
 def main():
     checks = []
